@@ -4,6 +4,7 @@ import (
 	"fmt"
 	"regexp"
 	"strings"
+	"unicode"
 
 	"verif/internal/fw"
 	"verif/internal/h"
@@ -33,7 +34,20 @@ func diagMessage(stderr, name string) string {
 		line = line[:i]
 	}
 	if name != "" {
-		line = strings.ReplaceAll(line, name, "□")
+		// whole words only: the name d must not be found inside "redeclare"
+		var sb strings.Builder
+		rs, nm := []rune(line), []rune(name)
+		isWord := func(r rune) bool { return r == '_' || unicode.IsLetter(r) || unicode.IsDigit(r) || unicode.IsMark(r) }
+		for i := 0; i < len(rs); {
+			if i+len(nm) <= len(rs) && string(rs[i:i+len(nm)]) == name && (i == 0 || !isWord(rs[i-1])) && (i+len(nm) == len(rs) || !isWord(rs[i+len(nm)])) {
+				sb.WriteString("□")
+				i += len(nm)
+				continue
+			}
+			sb.WriteRune(rs[i])
+			i++
+		}
+		line = sb.String()
 	}
 	return line
 }
@@ -128,6 +142,15 @@ func judgeSrc(c *fw.Ctx, src string, prog []*model.N, jo judgeOpts) (o h.Outcome
 		InStdout: o.Stdout, InStderr: o.Stderr, InStatus: o.Status}
 	if abnormal(c, o, "file", src, base) {
 		return o, res, false
+	}
+	if len(res.AltErrorLines) > 0 && o.Status == 70 && o.Stderr != "" {
+		got := runtimeDiagLine(o.Stderr)
+		for _, l := range res.AltErrorLines {
+			if l == got {
+				c.Skip("unspecified: the implementation refuses a function declaration of a name already bound in the scope")
+				return o, res, true
+			}
+		}
 	}
 	fail := func(clause, exp, obs string) {
 		r := base
